@@ -161,7 +161,7 @@ func cmdCheck(eng *Engine, args []string) int {
 	t0 := time.Now()
 	tmp, _ := os.MkdirTemp("", "govc")
 	defer os.RemoveAll(tmp)
-	cfg := &SolverCfg{TimeoutS: 10, PatienceS: 120, TmpDir: tmp, NoPatience: map[string]bool{}}
+	cfg := &SolverCfg{TimeoutS: 10, PatienceS: 60, TmpDir: tmp, NoPatience: map[string]bool{}}
 	for _, k := range loadKnown(filepath.Join(verifDir, "known_findings.txt")) {
 		if k.Status == "open" && k.Obligation != "" {
 			cfg.NoPatience[k.Obligation] = true
@@ -353,7 +353,7 @@ func cmdCheck(eng *Engine, args []string) int {
 			if u.FType != nil || (ob.Result == "sat" && ob.Model != "") || id == "C16" || id == "C03" || id == "C17" {
 				if rep := tryReplay(eng, u, ob, verifDir); rep != "" {
 					body += "\nreplay on the real code:\n" + rep
-					replayed = strings.Contains(rep, "REPRODUCED")
+					replayed = strings.Contains(rep, "REPRODUCED input")
 				}
 			}
 			violation(ob.Name, body, !replayed)
@@ -390,6 +390,8 @@ func cmdCheck(eng *Engine, args []string) int {
 	scanResults = append(scanResults, eng.quoteChecks(id)...)
 	scanResults = append(scanResults, eng.descEndChecks(id)...)
 	scanResults = append(scanResults, eng.corpusChecks(id, tier)...)
+	scanResults = append(scanResults, eng.scanCorpusChecks(id, tier)...)
+	scanResults = append(scanResults, eng.treeChecks(id)...)
 	if id == "C16" {
 		scanResults = append(scanResults, eng.repeatChecks(id)...)
 		// determinism of what is computed: C06's obligation set, re-run under C16
@@ -468,7 +470,7 @@ func cmdCheck(eng *Engine, args []string) int {
 			violation(r.Name, fmt.Sprintf("obligation: %s\nkind: whole-module SSA scan\ngoal: %s\n%s\n", r.Name, r.Goal, r.Detail), true)
 		}
 	}
-	if id == "C17" && tier == "thorough" {
+	if id == "C17" {
 		if openapiReplayMemo == "" {
 			openapiReplayMemo = replayOpenAPI(eng)
 		}
@@ -479,7 +481,7 @@ func cmdCheck(eng *Engine, args []string) int {
 		}
 		boundedNote = strings.TrimSpace(openapiReplayMemo)
 	}
-	if id == "C03" && tier == "thorough" {
+	if id == "C03" {
 		// bounded cross-check on the real code (never counted as proved)
 		if faultReplayMemo == "" {
 			faultReplayMemo = replayFaults(eng)
@@ -491,7 +493,7 @@ func cmdCheck(eng *Engine, args []string) int {
 		}
 		boundedNote = strings.TrimSpace(faultReplayMemo)
 	}
-	if id == "C16" && tier == "thorough" {
+	if id == "C16" {
 		// bounded cross-check on the real code (never counted as proved): every history of length 3 over the five accessors
 		if repeatReplay == "" {
 			repeatReplay = replayRepeat(eng)
